@@ -92,6 +92,26 @@ def _np(t):
     return t.detach().cpu().numpy()
 
 
+def empty_leading(r, ok, fname, fn, ref):
+    """"for all shapes": a batch without rows is a shape too - the helpers are pure reshapes / repeats / sums and must return the
+    (empty) result of the right shape instead of raising (numpy reference)"""
+    for shape in ((0,), (0, 3), (0, 2, 3)):
+        for n in (1, 2, 3):
+            x = torch.zeros(shape)
+            try:
+                want = ref(np.zeros(shape), n)
+            except Exception:
+                continue
+            try:
+                y = fn(x, n)
+            except Exception as e:
+                ok(False, fname, "utils.%s raises on a batch without rows" % fname, shape=list(shape), n=n, exc=repr(e)[:160])
+                continue
+            ok(tuple(y.shape) == tuple(want.shape), fname, "utils.%s wrong shape on a batch without rows" % fname,
+               shape=list(shape), n=n, got=list(y.shape), want=list(want.shape))
+            r.cell(fname, "empty", len(shape), n)
+
+
 def run_case(case):
     from nflows.utils import torchutils as tu
     from nflows.utils import typechecks as tc
@@ -130,6 +150,7 @@ def run_case(case):
                 ok(True, "tile", "")
             except Exception as e:
                 ok(False, "tile", "utils.tile wrong exception for bad n", n=repr(bad), exc=repr(e))
+        empty_leading(r, ok, "tile", lambda x, n: tu.tile(x, n), lambda x, n: np.repeat(x.reshape(-1), n))
         r.sample({"fn": "tile", "x": [0.5, 1.5], "n": 2, "out": _np(tu.tile(torch.tensor([0.5, 1.5]), 2))})
 
     elif g == "repeat_rows":
@@ -150,6 +171,7 @@ def run_case(case):
                 ok(True, "repeat_rows", "")
             except Exception as e:
                 ok(False, "repeat_rows", "utils.repeat_rows wrong exception", n=repr(bad), exc=repr(e))
+        empty_leading(r, ok, "repeat_rows", lambda x, n: tu.repeat_rows(x, n), lambda x, n: np.repeat(x, n, axis=0))
         r.sample({"fn": "repeat_rows", "shape": [2, 2], "n": 2})
 
     elif g == "merge_split":
@@ -182,6 +204,9 @@ def run_case(case):
                 ok(False, "merge_leading_dims", "utils.merge_leading_dims accepts bad num_dims", n=repr(bad))
             except TypeError:
                 ok(True, "merge_leading_dims", "")
+        empty_leading(r, ok, "merge_leading_dims", lambda x, n: tu.merge_leading_dims(x, min(n, x.dim())),
+                      lambda x, n: x.reshape((int(np.prod(x.shape[:min(n, x.ndim)])),) + x.shape[min(n, x.ndim):]))
+        empty_leading(r, ok, "split_leading_dim", lambda x, n: tu.split_leading_dim(x, [0, n]), lambda x, n: x.reshape((0, n) + x.shape[1:]))
         r.sample({"fn": "merge/split", "shape": list(shapes[-1])})
 
     elif g == "sum_except_batch":
@@ -198,6 +223,8 @@ def run_case(case):
             y = tu.sum_except_batch(x)
             ok(tuple(y.shape) == (shape[0],), "sum_except_batch", "utils.sum_except_batch default keeps batch",
                shape=list(shape))
+        empty_leading(r, ok, "sum_except_batch", lambda x, n: tu.sum_except_batch(x, min(n, x.dim())),
+                      lambda x, n: x.reshape(x.shape[:min(n, x.ndim)] + (-1,)).sum(-1))
         r.sample({"fn": "sum_except_batch", "shape": list(shapes[-1]), "k": 1})
 
     elif g == "searchsorted":
